@@ -241,7 +241,50 @@ func init() {
 			return outs
 		},
 	}
+	// context.WithValue(parent, key, val): a new context whose Value(key) is val (other keys: unknown)
+	models["context.WithValue"] = func(fr *Frame, st *State, args []Value, sig *types.Signature) []Outcome {
+		parent := args[0].(Iface)
+		_ = parent
+		h := st.eng.freshHandle("ctx")
+		tid := UF("tid", SInt, h)
+		st.assume(Lt(Int(0), tid))
+		nc := Iface{Tid: tid, Box: h}
+		kt, err := st.keyTerm(args[1])
+		if err != nil {
+			fail("context.WithValue: %v", err)
+		}
+		vh := UF("ctx.value", SInt, tid, h, kt)
+		val := args[2].(Iface)
+		if val.Dyn != nil {
+			st.assume(Eq(UF("tid", SInt, vh), st.eng.tidOf(val.Dyn)))
+			if p, ok := val.V.(Ptr); ok && len(p.Path) == 0 {
+				st.assume(Eq(vh, p.H))
+			}
+		} else {
+			st.assume(Eq(vh, val.Box))
+			st.assume(Eq(UF("tid", SInt, vh), val.Tid))
+		}
+		return ret(st, nc)
+	}
+	models["context.Background"] = func(fr *Frame, st *State, args []Value, sig *types.Signature) []Outcome {
+		h := Var("ctx.background", SInt)
+		tid := UF("tid", SInt, h)
+		st.assume(Lt(Int(0), tid))
+		return ret(st, Iface{Tid: tid, Box: h})
+	}
 	ifaceModels = map[string]modelFn{
+		// Value(key): a pure function of the context and the key
+		"(context.Context).Value": func(fr *Frame, st *State, args []Value, sig *types.Signature) []Outcome {
+			c := args[0].(Iface)
+			kt, err := st.keyTerm(args[1])
+			if err != nil {
+				fail("Context.Value: %v", err)
+			}
+			vh := UF("ctx.value", SInt, c.Tid, c.Box, kt)
+			tid := UF("tid", SInt, vh)
+			st.assume(Le(Int(0), tid))
+			return ret(st, Iface{Tid: tid, Box: vh})
+		},
 		"(error).Error": func(fr *Frame, st *State, args []Value, sig *types.Signature) []Outcome {
 			return ret(st, Scalar{UF("errmsg", SString, args[0].(Iface).Box)})
 		},
